@@ -5,6 +5,7 @@ import Pushr.Spec.C04
 import Pushr.Spec.C05
 import Pushr.Spec.C06
 import Pushr.Spec.C07
+import Pushr.Spec.C08
 /-! `exec` / `step` requests: one observed transition of the real interpreter state. -/
 open Pushr Codec
 
@@ -104,13 +105,44 @@ def c07Eval : PropEval := fun i pre post =>
     if encState post == encState want then none else some ("CODE.DEFINITION must yield " ++ encState want)
   | _, _ => none
 
+/-- C08: CODE instructions against the points-based statements -/
+def c08Eval : PropEval := fun i pre post =>
+  match i, post with
+  | .code .insert, some post =>
+    (match pre.int, pre.code with
+     | i :: _, top :: x :: _ =>
+       if i > 0 && i.toInt.toNat < top.size then
+         match post.code with
+         | r :: _ => if C08.insertOk top x i.toInt.toNat r then none
+                     else some "after INSERT at a valid index EXTRACT does not return the inserted item (or other points changed)"
+         | [] => some "INSERT emptied the CODE stack"
+       else if i == 0 then none
+       else
+         -- out of range / negative: EXTRACT normalises the index, INSERT (as pinned by a unit test) does not
+         match post.code with
+         | r :: _ =>
+           (match (C08.pts r)[remEuclid i r.size]? with
+            | some q => if Item.equals q x || q.show == x.show then none
+                        else some "[K02] INSERT with an out-of-range index is a no-op: a following EXTRACT at the same index does not return the inserted item"
+            | none => none)
+         | [] => none
+     | _, _ => none)
+  | .code o, some post =>
+    (match C08.expect o pre with
+     | some want => if encState post == encState want then none else some ("points-based statement prescribes " ++ encState want)
+     | none => none)
+  | _, _ => none
+
 def propEvals : List (String × PropEval) :=
-  [("C01", panicFree), ("C04", c04Eval), ("C05", c05Eval), ("C06", c06Eval), ("C07", c07Eval)]
+  [("C01", panicFree), ("C04", c04Eval), ("C05", c05Eval), ("C06", c06Eval), ("C07", c07Eval), ("C08", c08Eval)]
 
 /-- instruction names in the scope of a property's single-instruction scenario -/
 def scopeOf (pid : String) : List Instr :=
   match pid with
   | "C04" => Instr.all.filter C04.inTable
+  | "C08" => [.code .size, .code .extract, .code .insert, .code .position, .code .container, .code .subst,
+              .code .car, .code .cdr, .code .cons, .code .list, .code .length, .code .nth, .code .null,
+              .code .atom, .code .member, .code .contains, .code .eq, .code .discrepancy, .code .append]
   | "C06" => [.exec .if_, .code .if_, .exec .k, .exec .s, .exec .y, .stk .exec .dup, .code .do_, .code .dostar,
               .code .quote, .exec .loop, .code .loop, .vec .i .loop, .index .current, .index .define,
               .index .destination, .index .flush, .index .increase, .index .pop]
